@@ -23,11 +23,11 @@ def scale_images(data):
             for i, element in enumerate(cell):
                 if isinstance(element, Figure):  # scale image to half size
                     cell[i] = Figure(
-                        imgFile=element.img_path,
-                        captionTxt=element.captionTxt,
-                        captionStyle=element.cs,
-                        imgWidth=element.imgWidth / 2.0,
-                        imgHeight=element.imgHeight / 2.0,
+                        img_file=element.img_path,
+                        caption_txt=element.caption_txt,
+                        caption_style=element.caption_style,
+                        img_width=element.img_width / 2.0,
+                        img_height=element.img_height / 2.0,
                         margin=element.margin,
                         padding=element.padding,
                         align=element.align,
